@@ -114,7 +114,7 @@ func (e *Engine) VerifyFunction(name string) (res *UnitResult) {
 	cov := u.oblige("cover", "requires", nil, c.True(), c.True(), "preconditions and type invariants are satisfiable", fn.Pos())
 	cov.Cover = true
 	// declared frame
-	if con.Pure || con.Transparent {
+	if con.Pure || (con.Transparent && !con.HasModifies) {
 		u.frame = &FrameSpec{}
 	} else if con.ModAny {
 		u.frame = nil
